@@ -148,6 +148,42 @@ def check_fresh_run(fx, rep, rule):
     rep.floor(rule, n, 1, "whole-pipeline entry points of the type checker")
 
 
+def check_mapping_shape(fx, rep, rule):
+    # a mapping element is keccak(key ++ slot): exactly two hashed words, the slot last. A lifter that also accepts longer hashes
+    # attributes them to the mapping at whatever word it picks - a slot the access does not belong to.
+    n_shape = 0
+    for fb in fx.fn_bodies():
+        if not fb.get("hir") or fb.get("from_expansion") or not fb["def"].startswith("<tc::lift::"):
+            continue
+        fn = fb["def"]
+        for node, _ps in F.walk(fb["hir"]["value"]):
+            if node.get("k") != "Struct" or node.get("adt") != SVD or node.get("variant") != "MappingIndex":
+                continue
+            fld = {f["field"]: f["e"] for f in node["fields"]}
+            roots = {}
+            for role in ("key", "slot"):
+                e = fld.get(role)
+                lids = [x["local"] for x, _ in F.walk(e)] if False else []
+                for x, _ in F.walk(e) if e is not None else []:
+                    if x.get("k") == "Path" and x.get("res") == "local":
+                        lids.append(x["local"])
+                roots[role] = lids[0] if lids else None
+            slices = []
+            for m, _ in F.walk(fb["hir"]["value"]):
+                pat = m.get("pat") if isinstance(m, dict) else None
+                if isinstance(pat, dict) and m.get("s") == "Let":
+                    alts = pat["pats"] if pat.get("p") == "Or" else [pat]
+                    alts = [a for a in alts if a.get("p") == "Slice"]
+                    if alts and any(roots["slot"] in [b_.get("local") for b_ in a.get("before", []) + a.get("after", [])] for a in alts):
+                        slices = alts
+            if not slices:
+                continue  # built from something other than a destructured word list (e.g. re-wrapping an existing index)
+            n_shape += 1
+            ok = len(slices) == 1 and len(slices[0].get("before", [])) == 2 and not slices[0].get("after") and slices[0].get("slice") is None and [b_.get("local") for b_ in slices[0]["before"]] == [roots["key"], roots["slot"]]
+            rep.oblige(ok, rule, f"mapping-shape:{F.strip_generics(fn)}", F.loc(node["span"]), f"`{fn}` lifts a mapping element from a hash that is not exactly `keccak(key ++ slot)` (the word list is matched by {len(slices)} pattern(s) of lengths {[len(a.get('before', [])) + len(a.get('after', [])) for a in slices]}{' with a rest' if any(a.get('slice') is not None for a in slices) else ''}): a longer hash is attributed to the mapping at one of its words, a slot that access does not belong to", sample={"rule": rule, "lifter": fn, "pattern": "[key, slot]"})
+    rep.floor(rule, n_shape, 1, "mapping elements lifted from a destructured hash pre-image")
+
+
 def check(fx, rep, tier):
     cg = F.CallGraph(fx)
     refs = fn_refs(fx)
@@ -283,6 +319,7 @@ def check(fx, rep, tier):
             f"`{fn}` lifts {sorted({v for _, v in sites})} patterns but can be applied outside a storage access: {'; '.join(why[:2])} — look-alike hashing anywhere in the program would be reported as storage",
             sample={"rule": "R05.3", "lifter": fn, "builds": sorted({v for _, v in sites}), "guarded": ok},
         )
+    check_mapping_shape(fx, rep, "R05.3")
     # each pass's root callback is a guard, or builds nothing fresh
     runs = [b for i, b in fx.trait_method_bodies("tc::lift::Lift", "run")]
     rep.floor("R05.3", len(runs), 9, "lifting passes")
